@@ -4,8 +4,8 @@
                             kind "stress": nothing to predict) -> out records
    drv <impl-out-file>      same, and additionally runs the extracted trace monitors
                             (all_good) on the implementation's trace of each case
-   drv gen <tag> <maxlen> <maxcmds> <maxF>
-                            prints every schedule word of length <= maxlen with at most
+   drv gen <tag> <maxlen> <maxcmds> <maxF> [prefix tokens]
+                            prints every schedule word prefix.w, w of length <= maxlen with at most
                             maxcmds controller commands and maxF false run_condition
                             answers, over the tokens that are enabled in the model state reached
                             (symmetry reduction: disabled tokens, F outside
@@ -43,6 +43,28 @@ let event_of_string s =
       if starts s "stepno" then Some (EQStep (nat_of_int (num_after s "stepno")))
       else if starts s "step" then Some (EStep (nat_of_int (num_after s "step")))
       else None
+
+(* stress traces: the final store lies between the markers "final5" and "exit" (points 5 and 6).
+   EExit is placed at final5; is_running() answers logged inside the window are dropped (they may
+   legitimately be either value) — a run() inside the window then counts as "after the exit",
+   which is the only sound reading since it may have followed the store. *)
+let normalise_stress (ws : string list) : string list =
+  if not (List.mem "final5" ws) then ws
+  else begin
+    let rec before acc = function
+      | "final5" :: rest -> (List.rev acc, rest)
+      | x :: rest -> before (x :: acc) rest
+      | [] -> (List.rev acc, [])
+    in
+    let pre, rest = before [] ws in
+    let rec window acc = function
+      | "exit" :: rest -> (List.rev acc, rest)
+      | x :: rest -> window (if starts x "isrun" then acc else x :: acc) rest
+      | [] -> (List.rev acc, [])
+    in
+    let win, post = window [] rest in
+    pre @ ("exit" :: win) @ post
+  end
 
 let loc_of_pc = function
   | PTop -> "1" | PHeld -> "2" | PSleep -> "S" | PInit -> "3" | PInitBody -> "7" | PC1a -> "9" | PStepBody -> "8"
@@ -102,7 +124,7 @@ let run_cases impl =
            | None -> ()
            | Some r ->
                if Caseio.has r "trace" then begin
-                 let evs = List.filter_map event_of_string (Caseio.get_word r "trace") in
+                 let evs = List.filter_map event_of_string (normalise_stress (Caseio.get_word r "trace")) in
                  let tr = List.rev evs in
                  Caseio.out_int "impl_good" (b2i (all_good tr));
                  Caseio.out_word "impl_bad" (diagnose tr)
@@ -111,7 +133,7 @@ let run_cases impl =
     cases
 
 (* ---- exhaustive enumeration over enabled tokens ---- *)
-let gen tag maxlen maxcmds maxf =
+let gen tag maxlen maxcmds maxf prefix =
   let states = Hashtbl.create 1024 and trans = Hashtbl.create 4096 in
   let key c = (c.c_pc, c.c_run, c.c_rst, c.c_td, int_of_nat c.c_step, c.c_woken) in
   let n = ref 0 in
@@ -139,13 +161,15 @@ let gen tag maxlen maxcmds maxf =
           end)
         (enabled c)
   in
-  go init [] 0 0 0;
+  let c0 = List.fold_left do_token init prefix in
+  go c0 (List.rev_map string_of_tok prefix) 0 0 0;
   Printf.printf "# stats words=%d states=%d transitions=%d maxlen=%d\n" !n (Hashtbl.length states) (Hashtbl.length trans) maxlen;
   print_string (Buffer.contents buf)
 
 let () =
   match Array.to_list Sys.argv with
-  | _ :: "gen" :: tag :: k :: mc :: mf :: _ -> gen tag (int_of_string k) (int_of_string mc) (int_of_string mf)
+  | _ :: "gen" :: tag :: k :: mc :: mf :: prefix ->
+      gen tag (int_of_string k) (int_of_string mc) (int_of_string mf) (List.map tok_of_string prefix)
   | _ :: f :: _ ->
       let ic = open_in f in
       let recs = Caseio.read_records "out" ic in
